@@ -219,6 +219,7 @@ func (p *Prog) Atoms(fi *FuncInfo, subst [][2]string) map[string]bool {
 		}
 		return norm(types.TypeString(t, func(pk *types.Package) string { return pk.Name() }))
 	}
+	tagless := map[ast.Node]bool{}
 	for _, h := range p.WithHelpers(fi, 3, true) {
 		info := h.Pkg.TypesInfo
 		ast.Inspect(h.Decl.Body, func(n ast.Node) bool {
@@ -271,7 +272,16 @@ func (p *Prog) Atoms(fi *FuncInfo, subst [][2]string) map[string]bool {
 				if x.Op.String() != "&&" && x.Op.String() != "||" {
 					out["op "+x.Op.String()+" "+tstr(info.TypeOf(x.X))] = true
 				}
+			case *ast.SwitchStmt:
+				if x.Tag == nil {
+					for _, cl := range x.Body.List {
+						tagless[cl] = true // `switch { case c: }` is an if chain: its conditions are operators, not cases
+					}
+				}
 			case *ast.CaseClause:
+				if tagless[x] {
+					return true
+				}
 				for _, e := range x.List {
 					if tv, ok := info.Types[e]; ok && tv.IsType() {
 						out["case type "+tstr(tv.Type)] = true
